@@ -66,7 +66,7 @@ def globalStores : List (Str × Str × Str) :=
 /-- F9: the only writes, outside init, to state that outlives a request: `CompleteConfiguration` filling in defaults of the
     controller before it serves, and the administrator's setter of the user-namespace switch (an atomic.Bool) -/
 def stateWrites : List (Str × Str × Str) :=
-  [(b!"admission", b!"admission.Admission).CompleteConfiguration", b!"store through param:a"),
+  [(b!"admission", b!"admission.Admission).CompleteConfiguration", b!"store through receiver"),
    (b!"policy", b!"policy.RelaxPolicyForUserNamespacePods", b!"call atomic.Bool).Store on shared:relaxPolicyForUserNamespacePods")]
 
 def podSpecResources : List Str :=
